@@ -770,6 +770,17 @@ class LibMixin:
                     else:
                         out.append(self.raised(s, "KeyError", "key"))
                 return out
+        if isinstance(obj, VConst) and isinstance(obj.py, tuple) and obj.py and obj.py[0] == "global" and isinstance(key, (VClass, VExcClass)):
+            # module-level dict literal keyed by classes (e.g. exceptions.WARNINGS)
+            from . import load as _load
+            mod = _load.get_module(obj.py[1])
+            lit = mod.consts.get(obj.py[2])
+            if isinstance(lit, ast.Dict):
+                for k, v in zip(lit.keys, lit.values):
+                    kn = k.id if isinstance(k, ast.Name) else (k.attr if isinstance(k, ast.Attribute) else None)
+                    if kn == key.name:
+                        return [(st, VConst(("table-value", obj.py[2], ast.unparse(v))))]
+                return [self.raised(st, "KeyError", key.name)]
         raise Unsupported(f"subscript of {type(obj).__name__}")
 
     def seq_index(self, st, seq, key):
